@@ -575,6 +575,23 @@ func (ef *errflow) explore(fn *ssa.Function, origin Site, evals []ssa.Value) (Ve
 					run(efState{notS, 0, b, st.mode, car})
 					return
 				}
+				if pc, ok := x.Cond.(*ssa.Call); ok && len(pc.Call.Args) == 1 && has(pc.Call.Args[0]) {
+					if sc := pc.Call.StaticCallee(); sc != nil {
+						if sents, ok := sentinelPredicate(sc); ok {
+							all := len(sents) > 0
+							for g := range sents {
+								if !ef.allowed(fn, g) {
+									all = false
+								}
+							}
+							if !all {
+								run(efState{b.Succs[0], 0, b, 1, car})
+							}
+							run(efState{b.Succs[1], 0, b, st.mode, car})
+							return
+						}
+					}
+				}
 				for _, s := range b.Succs {
 					run(efState{s, 0, b, st.mode, car})
 				}
